@@ -7,5 +7,5 @@ sed -i "$expr" "/repo/$file"
 if git diff --quiet; then echo "MUTANT DID NOT APPLY: $expr"; exit 8; fi
 git diff | grep '^[+-]' | grep -v '^+++\|^---'
 cd /verif
-for chk in $chks; do bin/vcheck "$chk" --tier quick "$@" 2>&1 | grep -v "^INCONCLUSIVE\|^KNOWN" | cut -c1-330 | tail -3; done
+for chk in $chks; do VERIF_OUT=/var/tmp/verif_seed_out bin/vcheck "$chk" --tier quick "$@" 2>&1 | grep -v "^INCONCLUSIVE\|^KNOWN" | cut -c1-330 | tail -3; done
 git -C /repo checkout -- .
